@@ -1,4 +1,4 @@
-CONSTANTS MaxGen = 2 DropStyledBlank = FALSE RowSkip = "default" Family = "small" EmitReplay = FALSE
+CONSTANTS MaxGen = 2 DropStyledBlank = FALSE ColFold = "adjacent" RowSkip = "default" Family = "small" EmitReplay = FALSE
 SPECIFICATION MCSpec
 VIEW View
 INVARIANTS FixedPoint FileFixedPoint OrigSim OrigSimExists EditLocal SaveTwiceSame NormIdempotent
